@@ -562,3 +562,49 @@ Proof.
   destruct (Nat.eqb_spec (length (concat qss)) (length data)) as [E|_]; [contradiction|].
   change (rf_norm_rows (expected_facts pk)) with NRFixed. cbn match. apply norm_rows_grouped. exact Hf.
 Qed.
+
+(** * which fluxes the repaired producers / consumers list: exactly the factors whose signed coefficient
+      is positive in some reported row of some segment *)
+Lemma pos_somewhere_spec coefs j :
+  pos_somewhere coefs j = true <-> exists rows row, In rows coefs /\ In row rows /\ 0 < nth j row 0.
+Proof.
+  unfold pos_somewhere. rewrite existsb_exists. split.
+  - intros [rows [Hin H]]. apply existsb_exists in H. destruct H as [row [Hr H]].
+    exists rows, row. split; [exact Hin|]. split; [exact Hr|]. apply Z.ltb_lt. exact H.
+  - intros [rows [row [Hin [Hr H]]]]. exists rows. split; [exact Hin|]. apply existsb_exists.
+    exists row. split; [exact Hr|]. apply Z.ltb_lt. exact H.
+Qed.
+
+Lemma indexed_from_in {A} (l : list A) : forall k j x,
+  In (j, x) (combine (seq k (length l)) l) <-> (k <= j)%nat /\ nth_error l (j - k) = Some x.
+Proof.
+  induction l as [|y l IH]; intros k j x; cbn [length seq combine In].
+  - split; [intros []|]. intros [_ H]. destruct (j - k)%nat; discriminate.
+  - rewrite IH. split.
+    + intros [E|[Hle Hn]].
+      * injection E as <- <-. split; [lia|]. rewrite Nat.sub_diag. reflexivity.
+      * split; [lia|]. replace (j - k)%nat with (S (j - S k)) by lia. exact Hn.
+    + intros [Hle Hn]. destruct (Nat.eq_dec j k) as [->|Hne].
+      * left. rewrite Nat.sub_diag in Hn. cbn in Hn. injection Hn as <-. reflexivity.
+      * right. split; [lia|]. replace (j - k)%nat with (S (j - S k)) in Hn by lia. exact Hn.
+Qed.
+
+Lemma kept_spec fs coefs j rn :
+  In (j, rn) (kept fs coefs) <->
+  (exists c, nth_error fs j = Some (rn, c)) /\
+  exists rows row, In rows coefs /\ In row rows /\ 0 < nth j row 0.
+Proof.
+  unfold kept, indexed. rewrite in_map_iff. split.
+  - intros [[j' [rn' c]] [E Hin]]. cbn [fst snd] in E. injection E as -> ->.
+    apply filter_In in Hin. destruct Hin as [Hin Hp]. cbn [fst] in Hp.
+    apply indexed_from_in in Hin. destruct Hin as [_ Hn]. rewrite Nat.sub_0_r in Hn.
+    split; [exists c; exact Hn|]. apply pos_somewhere_spec. exact Hp.
+  - intros [[c Hn] Hp]. exists (j, (rn, c)). split; [reflexivity|].
+    apply filter_In. split; [|cbn [fst]; apply pos_somewhere_spec; exact Hp].
+    apply indexed_from_in. split; [lia|]. rewrite Nat.sub_0_r. exact Hn.
+Qed.
+
+Lemma mask_cell_spec scaled q c :
+  (0 < c -> mask_cell scaled q c = Some (if scaled then (q * inject_Z c)%Q else q)) /\
+  (c <= 0 -> mask_cell scaled q c = None).
+Proof. unfold mask_cell. destruct (Z.ltb_spec 0 c); split; intro; try reflexivity; lia. Qed.
